@@ -37,7 +37,7 @@ func C01() *runner.Property {
 		ID: "C01", Level: "exploration",
 		Rule: driveRule + "Step oracle after every merge (result is the stored or the incoming version, the newer one, ties consistent with a tie table across instances and orders, untouched keys unchanged, application view = live entries); final oracle: all instances identical in (timestamp, deleted, value) per DBI/key (shadow mode: identical application DBIs too), " +
 			"the content is a highest-timestamp version of all versions ever written (native: the application's writes; shadow: versions observed being captured), convergence within N+1 rounds, and (native) the same application history replayed under other delivery orders ends in the same content. " +
-			"realloops: 2-4 real Sync loops on one bucket with application writers on 4 conflicting keys; once the writers stopped and every loop is idle (logical clock) all instances must be identical and (native) hold the highest-timestamp version written anywhere. " +
+			"realloops-late: the newest version of a key is committed on i0 exactly at one of 8 yield points of i0's own loop (inside/after the snapshot transaction, before/after the upload, around the change detection), then silence: it must reach every instance. realloops: 2-4 real Sync loops on one bucket with application writers on 4 conflicting keys; once the writers stopped and every loop is idle (logical clock) all instances must be identical and (native) hold the highest-timestamp version written anywhere. " +
 			"Non-trivial = >= 1 key received >= 2 conflicting versions and >= 1 merge changed stored data; distinct by history.",
 		Assumptions: []string{"sweeper disabled", "shadow mode: all instances run on one host clock (the documented shared monotone clock)", "application writes are monotone per key per instance"},
 		BatchSize:   10, CaseTimeout: 180e9,
@@ -68,6 +68,15 @@ func C01() *runner.Property {
 				q := quietFleet{Native: i%2 == 0, Padding: i%5 == 4, N: 2 + i%3, Writes: 15 + r.Intn(40), Seed: r.U64()}
 				cs = append(cs, runner.MkCase("realloops", fmt.Sprintf("%d-native=%v-n%d", i, q.Native, q.N), q))
 			}
+			// the newest write of the whole history lands at a yield point of the writer's own sync loop, then silence
+			for rep := 0; rep < nf/12; rep++ {
+				for _, native := range []bool{true, false} {
+					for _, pt := range []string{"loop.top", "loop.before_info", "loop.after_info", "send.before_txn", "send.after_txn", "send.before_store", "send.after_store", "loop.end"} {
+						q := quietFleet{Native: native, N: 2 + rep%2, Writes: 4 + r.Intn(8), Seed: r.U64(), LateAt: pt}
+						cs = append(cs, runner.MkCase("realloops-late", fmt.Sprintf("%d-native=%v-%s", rep, native, pt), q))
+					}
+				}
+			}
 			return cs
 		},
 		Run: func(c runner.Case, env *runner.Env) (res runner.Result) {
@@ -78,7 +87,7 @@ func C01() *runner.Property {
 				runTie(t, env, &res)
 				return
 			}
-			if c.Family == "realloops" {
+			if c.Family == "realloops" || c.Family == "realloops-late" {
 				var q quietFleet
 				runner.Params(c, &q)
 				RunConvergingFleet(q, env, &res)
